@@ -220,6 +220,8 @@ def main(argv=None):
     known = [k for k in json.load(open(kf_path)).get("findings", []) if k["property"] == pid] if os.path.exists(kf_path) else []
     base_path = os.path.join(ROOT, "baseline", f"{pid}.json")
     baseline = set(json.load(open(base_path))["discharged"]) if os.path.exists(base_path) else None
+    unproved_listed = set(json.load(open(base_path)).get("unproved", [])) if os.path.exists(base_path) else set()
+    unproved_hits = []
 
     os.makedirs(os.path.join(ROOT, "replay", pid), exist_ok=True)
     violations, known_hits, undecided = [], [], []
@@ -233,8 +235,12 @@ def main(argv=None):
         in_base = baseline is not None and o["name"] in baseline
         if o.get("structural"):
             # an obligation about the shape of the proof (slice/frame of the code), not about behaviour: its failure
-            # leaves the property undecided; only a behavioural obligation with a failing input is a violation
-            undecided.append(o)
+            # leaves the property undecided; only a behavioural obligation with a failing input is a violation.
+            # Sites that were already unproved on the pinned tree are listed in the baseline and reported as such.
+            if o["name"] in unproved_listed:
+                unproved_hits.append(o)
+            else:
+                undecided.append(o)
             continue
         if o.get("replay_confirmed"):
             confirmed = True
@@ -275,6 +281,7 @@ def main(argv=None):
         "property_id": pid, "tier": tier, "seed": seed, "level": level,
         "coverage": {
             "obligations": len(real_obs), "discharged": discharged + sum(1 for _, o in known_hits if not o.get("bounded")),
+            "unproved_sites": [{"obligation": o["name"], "why": o.get("where")} for o in unproved_hits],
             "discharged_by_backend": by_backend,
             "known_finding_obligations": len(known_hits),
             "checker_cmd": f"python3-vt -m pyvc.driver {pid} --tier {tier}",
@@ -311,12 +318,15 @@ def main(argv=None):
     rc = 0
     for kf, o in known_hits:
         pass
+    for o in unproved_hits:
+        print(f"UNPROVED-SITE property={pid} {o['name']}: {o.get('where')} (listed as unproved on the pinned tree; not counted as discharged)")
     for kf in {json.dumps(k, sort_keys=True) for k, _ in known_hits}:
         k = json.loads(kf)
         print(f"KNOWN-FINDING: property={pid} {k['what']}")
     if a.write_baseline:
         os.makedirs(os.path.join(ROOT, "baseline"), exist_ok=True)
-        json.dump({"property": pid, "discharged": sorted(o["name"] for o in real_obs if o["status"] == "discharged")},
+        json.dump({"property": pid, "discharged": sorted(o["name"] for o in real_obs if o["status"] == "discharged"),
+                   "unproved": sorted(o["name"] for o in real_obs if o["status"] != "discharged" and o.get("structural"))},
                   open(base_path, "w"), indent=0)
         print(f"baseline written: {base_path}")
     if native_err:
@@ -371,6 +381,9 @@ def main(argv=None):
     if len(real_obs) < exp:
         print(f"CHECKER-DEFECT property={pid}: only {len(real_obs)} obligations generated, expected at least {exp}")
         return 3
+    if unproved_hits:
+        print(f"OK property={pid}: {discharged} of {len(real_obs)} obligations discharged, {len(unproved_hits)} listed unproved site(s), no violation")
+        return 0
     print(f"OK property={pid}: all {len(real_obs)} obligations discharged")
     return 0
 
